@@ -6,13 +6,16 @@
        "W"  a wide (CJK) identifier character (display width 2)
        "LF" "CR"  line terminators - LF, CR, CRLF and LFCR each end ONE physical line
        "X"  the single offending character (not part of any token)
+       "S"  a blank of a line's indentation; a text without X has exactly one run of them, at the start of a line,
+            whose length is not a multiple of 4: the indentation itself is what offends, the report names THAT
+            line, quotes it without its indentation and puts the marker at offset 0
    The scanner position machine walks the text; when it reaches X the report must name the
    physical line of X (1-based) and put the column marker under X: marker offset = sum of the
    display widths of the characters before X on that line. *)
 EXTENDS Integers, Sequences, FiniteSets, TLC, Json
 
 CONSTANTS MaxLen
-Cls == {"a", "W", "LF", "CR", "X"}
+Cls == {"a", "W", "LF", "CR", "X", "S"}
 
 RECURSIVE Texts(_)
 Texts(n) == IF n = 0 THEN {<<>>} ELSE LET S == Texts(n - 1) IN S \cup {Append(t, c) : t \in {u \in S : Len(u) = n - 1}, c \in Cls}
@@ -20,18 +23,37 @@ CountX(t) == Cardinality({j \in 1..Len(t) : t[j] = "X"})
 \* texts the front end can reach X in: every line before X is a non-empty identifier (a statement),
 \* exactly one X
 IsTerm(c) == c \in {"LF", "CR"}
+\* the indentation family: no X, one maximal run of S at a line start, length not a multiple of 4, a name character after it
+SIdx(t) == {j \in 1..Len(t) : t[j] = "S"}
+BadIndent(t) == /\ CountX(t) = 0 /\ SIdx(t) # {}
+                /\ LET lo == CHOOSE j \in SIdx(t) : \A q \in SIdx(t) : j <= q
+                       hi == CHOOSE j \in SIdx(t) : \A q \in SIdx(t) : q <= j
+                   IN /\ \A j \in lo..hi : t[j] = "S"
+                      /\ (lo = 1 \/ IsTerm(t[lo - 1]))
+                      /\ (hi - lo + 1) % 4 # 0
+                      /\ hi < Len(t) /\ t[hi + 1] \in {"a", "W"}
 Width(c) == IF c = "W" THEN 2 ELSE 1
 
 VARIABLES text, pos, line, col, pendingTerm, done
 vars == <<text, pos, line, col, pendingTerm, done>>
 
-Init == /\ text \in {t \in Texts(MaxLen) : CountX(t) = 1}
+\* both families built constructively (filtering all texts over six classes is needlessly slow); BadIndent / CountX are
+\* kept as the defining predicates and checked on every initial state by FamilyOK
+Plain == {"a", "W", "LF", "CR"}
+RECURSIVE Base(_)
+Base(n) == IF n = 0 THEN {<<>>} ELSE LET S == Base(n - 1) IN S \cup {Append(t, c) : t \in {u \in S : Len(u) = n - 1}, c \in Plain}
+Run(k) == [j \in 1..k |-> "S"]
+XTexts == UNION {{p \o <<"X">> \o q : q \in Base(MaxLen - 1 - Len(p))} : p \in Base(MaxLen - 1)}
+ITexts == UNION {UNION {{p \o Run(k) \o <<c>> \o q : q \in Base(MaxLen - Len(p) - k - 1), c \in {"a", "W"}}
+                        : k \in {n \in 1..(MaxLen - Len(p) - 1) : n % 4 # 0}}
+                 : p \in {u \in Base(MaxLen - 2) : u = <<>> \/ IsTerm(u[Len(u)])}}
+Init == /\ text \in XTexts \cup ITexts
         /\ pos = 1 /\ line = 1 /\ col = 0 /\ pendingTerm = "" /\ done = FALSE
 
 \* one character per step
 Step == /\ ~done
         /\ LET c == text[pos] IN
-           IF c = "X" THEN done' = TRUE /\ UNCHANGED <<pos, line, col, pendingTerm>>
+           IF c = "X" \/ c = "S" THEN done' = TRUE /\ UNCHANGED <<pos, line, col, pendingTerm>>
            ELSE IF IsTerm(c) THEN
                   \* the second half of CRLF / LFCR belongs to the same line end
                   IF pendingTerm # "" /\ pendingTerm # c
@@ -44,16 +66,19 @@ Next == Step
 \* independent characterisation of the line number: 1 + number of line ends before X, where a line
 \* end is a maximal pairing LF CR / CR LF or a single terminator
 RECURSIVE LineEnds(_, _)
-LineEnds(t, j) == IF j > Len(t) \/ t[j] = "X" THEN 0
+LineEnds(t, j) == IF j > Len(t) \/ t[j] = "X" \/ t[j] = "S" THEN 0
                   ELSE IF IsTerm(t[j]) THEN
                          IF j + 1 <= Len(t) /\ IsTerm(t[j + 1]) /\ t[j + 1] # t[j] THEN 1 + LineEnds(t, j + 2)
                          ELSE 1 + LineEnds(t, j + 1)
                   ELSE LineEnds(t, j + 1)
 LineAgrees == done => line = 1 + LineEnds(text, 1)
+FamilyOK == (CountX(text) = 1 /\ SIdx(text) = {}) \/ BadIndent(text)
 TypeOK == pos \in 1..Len(text) /\ line >= 1 /\ col >= 0
 
 \* the quoted line: from after the last terminator before X up to the next terminator
-LineStart == LET T == {j \in 1..pos - 1 : IsTerm(text[j])} IN IF T = {} THEN 1 ELSE 1 + CHOOSE j \in T : \A q \in T : q <= j
+AfterIndent == CHOOSE j \in pos..Len(text) : text[j] # "S" /\ \A q \in pos..j - 1 : text[q] = "S"
+LineStart0 == LET T == {j \in 1..pos - 1 : IsTerm(text[j])} IN IF T = {} THEN 1 ELSE 1 + CHOOSE j \in T : \A q \in T : q <= j
+LineStart == IF text[pos] = "S" THEN AfterIndent ELSE LineStart0
 LineStop == LET T == {j \in pos + 1..Len(text) : IsTerm(text[j])} IN IF T = {} THEN Len(text) ELSE (CHOOSE j \in T : \A q \in T : j <= q) - 1
 Emit == done => PrintT(ToJson([k |-> "pos", t |-> text, line |-> line, col |-> col,
                                quoted |-> SubSeq(text, LineStart, LineStop)]))
